@@ -112,16 +112,22 @@ def _noop():
 class RecListener(plumpy.ProcessListener):
     EVENTS = ('running', 'waiting', 'paused', 'played', 'finished', 'excepted', 'killed')
 
-    def __init__(self, run):
+    def __init__(self, run, channel='listener', raising=False):
         super().__init__()
         self.run = run
         self.counts = {}
+        self.channel = channel
+        self.raising = raising
 
     def _ev(self, name, proc, *info):
         n = self.counts.get(name, 0) + 1
         self.counts[name] = n
-        self.run.rec.ev('listener', name, _jsonable(list(info)), plumpy.Process.current() is proc)
-        self.run._trigger(['listener', name, n])
+        self.run.rec.ev(self.channel, name, _jsonable(list(info)), plumpy.Process.current() is proc)
+        if self.channel == 'listener':
+            self.run._trigger(['listener', name, n])
+        if self.raising:
+            # a broken observer: plumpy logs this and carries on with the other listeners
+            raise RuntimeError('listener %s is broken (%s)' % (self.channel, name))
 
     def on_process_running(self, process):
         self._ev('running', process)
@@ -314,8 +320,14 @@ class Run:
             self.rec.hooks['step'] = self._on_step
             proc.add_cleanup(lambda: self.rec.ev('cleanup'))
             if case.get('listener', True):
-                self.listener = RecListener(self)
+                raising = case.get('listener') == 'raising'
+                self.listener = RecListener(self, raising=raising)
                 proc.add_process_listener(self.listener)
+                if raising:
+                    # two more observers, all of them broken: whatever the iteration order, each must still be told
+                    self.listeners_more = [RecListener(self, 'listener%d' % k, True) for k in (2, 3)]
+                    for extra in self.listeners_more:
+                        proc.add_process_listener(extra)
             self.sample(0)
             for item in self._slot_plan.pop(0, ()):
                 self.apply(item[1], plan_idx=item[0])
@@ -343,7 +355,16 @@ class Run:
         return programs.program_class(self.case['program'], base)
 
     def _construct(self, cls, loop):
-        return cls(loop=loop)
+        if not self.case.get('recreate'):
+            return cls(loop=loop)
+        # the process under test is one recreated from the checkpoint of a freshly created process (load_instance_state
+        # and init() run, __init__ does not)
+        saved, programs.CURRENT_REC = programs.CURRENT_REC, None
+        try:
+            bundle = plumpy.Bundle(cls(loop=loop))
+        finally:
+            programs.CURRENT_REC = saved
+        return bundle.unbundle(plumpy.LoadSaveContext(loop=loop))
 
     def _collect_extra(self):
         return {}
